@@ -148,18 +148,20 @@ def runRawLzma (f : Fields) : String :=
   match LzmaDecoder.new params (parseOptNat (f.get "ml")) with
   | .error e => s!"new:{verdictOf (Except.error e : Except Err Unit)}"
   | .ok d0 =>
+    let decode (d : LzmaDecoder) (dirty : Bool) (acc : List String) (h : String) (bad : Bool) : LzmaDecoder × Bool × List String :=
+      if dirty then (d, dirty, acc ++ ["unspec"])
+      else
+        let rd : Rd := { rem := (bytesOfHex h).getD [], bad := bad }
+        match d.decompress rd {} with
+        | (snk, .ok (d', rd')) =>
+          (d', false, acc ++ [s!"ok:{rd.rem.length - rd'.rem.length}:{outRepr snk.out.toList}"])
+        | (snk, .error e) =>
+          (d, true, acc ++ [s!"{verdictOf (Except.error e : Except Err Unit)}:-:{outRepr snk.out.toList}"])
     let ops := (f.get "ops").splitOn ";"
     let (_, _, outs) := ops.foldl (init := (d0, false, ([] : List String))) fun (d, dirty, acc) op =>
       match op.splitOn ":" with
-      | ["d", h] =>
-        if dirty then (d, dirty, acc ++ ["unspec"])
-        else
-          let rd : Rd := Rd.ofBytes ((bytesOfHex h).getD [])
-          match d.decompress rd {} with
-          | (snk, .ok (d', rd')) =>
-            (d', false, acc ++ [s!"ok:{rd.rem.length - rd'.rem.length}:{outRepr snk.out.toList}"])
-          | (snk, .error e) =>
-            (d, true, acc ++ [s!"{verdictOf (Except.error e : Except Err Unit)}:-:{outRepr snk.out.toList}"])
+      | ["d", h] => decode d dirty acc h false
+      | ["df", h] => decode d dirty acc h true      -- the source fails where the data ends
       | ["st"] => (d, dirty, acc ++ [if dirty then "unspec" else stReprOf [] d.state])
       | ["r"] =>
         match d.reset none with
@@ -176,18 +178,20 @@ def runRawLzma2 (f : Fields) : String :=
   match Lzma2Decoder.new with
   | .error _ => "new:panic"
   | .ok d0 =>
+    let decode (d : Lzma2Decoder) (dirty : Bool) (acc : List String) (h : String) (bad : Bool) : Lzma2Decoder × Bool × List String :=
+      if dirty then (d, dirty, acc ++ ["unspec"])
+      else
+        let rd : Rd := { rem := (bytesOfHex h).getD [], bad := bad }
+        match d.decompress rd {} with
+        | (snk, .ok (d', rd')) =>
+          (d', false, acc ++ [s!"ok:{rd.rem.length - rd'.rem.length}:{outRepr snk.out.toList}"])
+        | (snk, .error e) =>
+          (d, true, acc ++ [s!"{verdictOf (Except.error e : Except Err Unit)}:-:{outRepr snk.out.toList}"])
     let ops := (f.get "ops").splitOn ";"
     let (_, _, outs) := ops.foldl (init := (d0, false, ([] : List String))) fun (d, dirty, acc) op =>
       match op.splitOn ":" with
-      | ["d", h] =>
-        if dirty then (d, dirty, acc ++ ["unspec"])
-        else
-          let rd : Rd := Rd.ofBytes ((bytesOfHex h).getD [])
-          match d.decompress rd {} with
-          | (snk, .ok (d', rd')) =>
-            (d', false, acc ++ [s!"ok:{rd.rem.length - rd'.rem.length}:{outRepr snk.out.toList}"])
-          | (snk, .error e) =>
-            (d, true, acc ++ [s!"{verdictOf (Except.error e : Except Err Unit)}:-:{outRepr snk.out.toList}"])
+      | ["d", h] => decode d dirty acc h false
+      | ["df", h] => decode d dirty acc h true      -- the source fails where the data ends
       -- the expected-size field is masked (dead across chunks: `lzma2_ignores_stale_size`)
       | ["st"] => (d, dirty, acc ++ [if dirty then "unspec" else stReprOf [] { d.lzmaState with unpackedSize := none }])
       | ["r"] =>
